@@ -117,7 +117,7 @@ CHECKS = {
         text=(
             "Machine-checked: C12_swaps_host_independent — whichever of the three process lists make_transcoder builds and whatever the host byte order, channel c of a block has each sample byte-reversed exactly when its SOURCE STREAM's byte order differs from the destination's, "
             "one flag per decoded channel in source order (this is the statement the pinned code violated; fix a59da5e); C12_channels (an accepted transcoder has one output channel per source channel), C12_tail (trailing bytes < 1 frame never reach the output), "
-            "passLoop_flatten (passthrough = whole frames for every block size, in Props/C03). C12_pair / pipeLoop_pair — a left and a right mono stream of F frames each (the stereo pairs of AKAI and Roland) come out as exactly F interleaved frames, frame f = left frame f then right frame f, for every internal block size (induction over the pipeline loop). C12_pair_any / pipeLoop_pair_any — the same two streams with ANY two lengths Fa, Fb: the output starts with the min(Fa,Fb) interleaved frames and holds T frames with min(Fa,Fb) <= T <= max(Fa,Fb), for every internal block size (C12_pair_any_equal: equal lengths give exactly the interleaving). C12_single (Props/C12I) — ONE source stream of any number nch >= 1 of interleaved channels, any sample width, little- or big-endian, signed or not, any length (also with stray trailing bytes), for every host byte order and every internal block size: through the passthrough when its encoding equals the destination's and through the de-interleave / byte-order / re-interleave pipeline otherwise, the concatenated output is exactly the whole frames of the source in order, every sample in its place (hence every channel in its place), byte-reversed exactly when the source is big-endian; only the bytes that do not form a whole frame are dropped (block_single: de-interleaving a block with `reshape((-1, n)).T`, mapping every sample and re-interleaving gives the block's whole frames back, via everyNth_spec / encodeBlock_channels; pipeLoop_single / passLoop_single: induction over the block loop). This is the path of every mono sample and of CDDA's interleaved stereo. C12_block_general / C12_block_pipeline (Props/C12G) — ONE BLOCK of ANY number of sources, each with any number nch >= 1 of interleaved channels (one common sample width, either byte order per source, any host): when every source has delivered m >= 1 whole frames, decoding every source into its channels (`reshape((-1, n)).T`), applying the byte-order steps (applySwaps_sources: every channel is treated by ITS source's byte order) and interleaving gives, frame by frame, the sources' frames in source order with their channels in channel order, every sample byte-reversed exactly when its source is big-endian: one output channel per source channel, frame f of channel c = frame f of source channel c (source_frame, encodeBlock_slots). NOT yet proved: the block LOOP for more than two sources or for an interleaved source next to others (how the stream is cut into blocks and where it stops when lengths differ): C12_single and C12_pair_any prove the loop for one stream and for a pair; the lattice and the oracle cover the rest. "
+            "passLoop_flatten (passthrough = whole frames for every block size, in Props/C03). C12_pair / pipeLoop_pair — a left and a right mono stream of F frames each (the stereo pairs of AKAI and Roland) come out as exactly F interleaved frames, frame f = left frame f then right frame f, for every internal block size (induction over the pipeline loop). C12_pair_any / pipeLoop_pair_any — the same two streams with ANY two lengths Fa, Fb: the output starts with the min(Fa,Fb) interleaved frames and holds T frames with min(Fa,Fb) <= T <= max(Fa,Fb), for every internal block size (C12_pair_any_equal: equal lengths give exactly the interleaving). C12_single (Props/C12I) — ONE source stream of any number nch >= 1 of interleaved channels, any sample width, little- or big-endian, signed or not, any length (also with stray trailing bytes), for every host byte order and every internal block size: through the passthrough when its encoding equals the destination's and through the de-interleave / byte-order / re-interleave pipeline otherwise, the concatenated output is exactly the whole frames of the source in order, every sample in its place (hence every channel in its place), byte-reversed exactly when the source is big-endian; only the bytes that do not form a whole frame are dropped (block_single: de-interleaving a block with `reshape((-1, n)).T`, mapping every sample and re-interleaving gives the block's whole frames back, via everyNth_spec / encodeBlock_channels; pipeLoop_single / passLoop_single: induction over the block loop). This is the path of every mono sample and of CDDA's interleaved stereo. C12_block_general / C12_block_pipeline (Props/C12G) — ONE BLOCK of ANY number of sources, each with any number nch >= 1 of interleaved channels (one common sample width, either byte order per source, any host): when every source has delivered m >= 1 whole frames, decoding every source into its channels (`reshape((-1, n)).T`), applying the byte-order steps (applySwaps_sources: every channel is treated by ITS source's byte order) and interleaving gives, frame by frame, the sources' frames in source order with their channels in channel order, every sample byte-reversed exactly when its source is big-endian: one output channel per source channel, frame f of channel c = frame f of source channel c (source_frame, encodeBlock_slots). C12_equal_lengths (Props/C12L) — through make_transcoder, for ANY number (>= 2) of source streams of one sample width, each with any number nch >= 1 of interleaved channels and its own byte order, all holding F whole frames: the output is exactly F frames, frame f being — source by source, channel by channel — frame f of every source, byte-reversed exactly for big-endian sources, for every host byte order and EVERY internal buffer size (pipeLoop_uniform: induction over the block loop on a state of (source, remaining bytes) pairs; expected_split: the first min(nf, R) frames come from the block, the rest from the advanced state). NOT yet proved: more than two sources (or an interleaved source next to others) of UNEQUAL lengths — where the loop stops and what the padded tail holds; C12_pair_any proves that for a pair, the lattice and the oracle cover the rest. "
             "Tie: exhaustive lattice 1..3 streams x {1,2,3} interleaved channels x width {1,2,4} x byte order per stream x lengths {0..3 frames + partial bytes} x block {1 frame, 2 frames, 4096} x host {LE, BE patched}, every source byte distinct."
         ),
         design_ref="DESIGN.md §4 C12",
